@@ -1,6 +1,6 @@
 """C08 Resource limits are never exceeded -- contracts on the real scheduler functions."""
-from pyvc.smt import *
-from pyvc.core import Module
+from pvc.smt import *
+from pvc.core import Module
 
 PROPERTY = "C08"
 SCHED = "redun/scheduler.py"
@@ -82,8 +82,8 @@ ASSUMED = ["Job.get_limits", "Scheduler._get_cache", "Scheduler._check_jobs_pend
 VERIFY = [k for k in contracts if k not in ASSUMED]
 
 
-from pyvc import frame_scan
-from pyvc.result import Result
+from pvc import frame_scan
+from pvc.result import Result
 
 
 def frame_checks(tier, seed):
